@@ -43,6 +43,12 @@ Definition bump (a : aux) (g c : N) : aux :=
 Definition default_burst : N := 100.
 Definition burst_of (p : policy) : N := match p_cfg p with Some b => b | None => default_burst end.
 
+(* ValidateAuthentication on the policy snapshot, for the harness's caller (127.0.0.1, AUTH_NONE): refused when
+   AllowedIPs excludes it or when Secure is set and the port is >= 1024.  The LTS's policy record has no AllowedIPs
+   field; the driver marks a policy whose AllowedIPs is [10.9.9.9] by a tag (MaxFileSize offset) >= 5000. *)
+Definition deny_ip (p : policy) : bool := 5000 <=? p_maxsize p.
+Definition auth_ok (p : policy) (highport : bool) : bool := negb (deny_ip p) && negb (p_secure p && highport).
+
 Definition pc_of (s : state) (r : N) : option rpc := match reqs s r with Some q => Some (r_pc q) | None => None end.
 
 (* does the model, taking step l from s to s', predict the observation o? *)
@@ -54,7 +60,7 @@ Definition predicts (p0 : policy) (a : aux) (s s' : state) (l : label) (o : list
                   | Some RJuke => nth_obs o 0 =? 0
                   | _ => false
                   end
-  | Auth r ok => Bool.eqb ok (negb (p_secure (cur_pol s) && (nth_obs o 0 =? 1)))
+  | Auth r ok => Bool.eqb ok (auth_ok (cur_pol s) (nth_obs o 0 =? 1))
   | Op r => (nth_obs o 0 =? p_maxsize (cur_pol s)) && (nth_obs o 1 =? b2n (p_ro (cur_pol s)))
   | ULock u => match upds s' u with
                | Some q => match u_pc q with
@@ -162,11 +168,11 @@ Definition ostep (o : ost) (l : label) (ob : list N) : ost * bool :=
   | Auth r ok =>
       match alookup r (o_issue o) with
       | Some (tg, _, _) =>
-          let sec := match alookup tg (o_pols o) with Some p => p_secure p | None => false end in
+          let okp := match alookup tg (o_pols o) with Some p => auth_ok p (nth_obs ob 0 =? 1) | None => false end in
           (if ok then o
            else with_fields o (o_tag o) (o_old o) (o_pols o) (o_inflight o) (o_draining o) (o_issue o) (o_conn o)
                   (removeN r (o_exec o)) (o_epoch o) (o_lim o) (o_cnt o),
-           Bool.eqb ok (negb (sec && (nth_obs ob 0 =? 1))))
+           Bool.eqb ok okp)
       | None => (o, false)
       end
   | Op r =>
